@@ -84,7 +84,25 @@ def generate(seed, tier, index):
             e = rng.choice(list(tgt["elements"].values()))
             reactive = {"dev": d, "trigger": trig["name"], "target": tgt["name"], "el": e["name"], "kind": tgt["kind"],
                         "sexa": tgt["kind"] == "Number" and V.is_sexa(e["format"])}
-    return {"devices": specs, "nclients": 1, "steps": steps, "net": net, "seed": rng.randrange(1 << 30), "reactive": reactive}
+    read_number = None
+    if rng.random() < 0.3 and not any(sp.get("class_of") or sp.get("subclass_of") for sp in specs):
+        # (not with driver families: handlers belong to the class, a twin or a subclass would share them)
+        # a number whose value lives in the hardware: a plain Read handler fetches it (reset_value) whenever the element is read,
+        # and the hardware value moves between requests
+        cands = []
+        for sp in specs:
+            if sp.get("class_of") or sp.get("subclass_of"):
+                continue
+            for ga, g in sp["levels"][-1]["groups"].items():
+                for va, v in g["vectors"].items():
+                    if v["kind"] == "Number":
+                        for ea, e in v["elements"].items():
+                            if not V.is_sexa(e["format"]):
+                                cands.append({"dev": sp["name"], "g": ga, "v": va, "e": ea, "vec": v["name"], "el": e["name"], "format": e["format"]})
+        if cands:
+            read_number = rng.choice(cands)
+    return {"devices": specs, "nclients": 1, "steps": steps, "net": net, "seed": rng.randrange(1 << 30), "reactive": reactive,
+            "read_number": read_number}
 
 
 def _n(t):
@@ -164,7 +182,27 @@ def execute(scen):
     changed = False
     classes = set()
     with Sim(scen["seed"], cfg, PoolConfig()) as sim:
-        stack = Stack(sim, scen["devices"])
+        rn = scen.get("read_number")
+        hw = {"v": 1.0}
+
+        def extra_attrs(spec):
+            if not rn or spec["name"] != rn["dev"]:
+                return None
+
+            def extra(dct):
+                from indi.device.events import Read, on
+                if rn["g"] not in dct:
+                    return {}
+                eldef = dct[rn["g"]].vectors[rn["v"]].elements[rn["e"]]
+
+                def fetch(self, event):
+                    probes["number_fetched_by_read_handler"] = probes.get("number_fetched_by_read_handler", 0) + 1
+                    event.element.reset_value(hw["v"])
+
+                return {"fetch_from_hardware": on(eldef, Read)(fetch)}
+            return extra
+
+        stack = Stack(sim, scen["devices"], extra_attrs=extra_attrs if rn else None)
         rx = scen.get("reactive")
         request = {"on": False, "ctx": "", "n": 0, "armed": False}
         if rx:
@@ -210,7 +248,7 @@ def execute(scen):
         stack.add_client(start=False)
         names = set(stack.drivers)
         v0 = []
-        c01.check_initial_state(stack, v0, facts)
+        c01.check_initial_state(stack, v0, facts, skip={(rn["dev"], rn["vec"], rn["el"])} if rn else ())
         for x in v0:
             viol.append(dict(x, clause="C07.members", detail="(current value at history length 0) " + x["detail"]))
         # what the history says about enable flags, per device instance (independent of the driver objects)
@@ -255,10 +293,12 @@ def execute(scen):
                     break
                 mark = len(stack.router_log)
                 ctx = f"getProperties device={st['device']!r} name={st['name']!r}"
+                if rn:
+                    hw["v"] = hw["v"] + 1.5  # the hardware has moved on since anybody last looked
                 request.update(on=True, ctx=ctx, armed=bool(rx))
                 res = apply_step(stack, {"op": "c_handshake", "c": 0, "device": st["device"], "name": st["name"]})
                 sim.settle()
-                reacted = bool(rx) and not request["armed"]
+                reacted = (bool(rx) and not request["armed"]) or bool(rn)
                 request.update(on=False, armed=False)
                 if viol:
                     break
